@@ -13,7 +13,7 @@ import re
 import shutil
 import concurrent.futures
 from . import common as C
-from . import cxx, exe, prog, qml, sgen
+from . import cxx, e0, exe, prog, qml, sgen
 
 TARGETS = ["props/C13.vo"]
 PINS = "pins/C13.v"
@@ -147,8 +147,145 @@ def overload_leg(ctx, vh, rng):
         ctx.broke("K", "uigen/objcode.rs uniquify_methods vs model/Overload.v", "model and implementation differ on %d sets of entries; first: %s\nmodel=%s\nimpl=%s" % (len(bad), t, m, g[0]))
 
 
+CB_HEADER = ("From QV Require Import model.Base model.Types gen.GenE0 model.Callback.\nFrom Coq Require Import List String Ascii NArith.\nImport ListNotations.\n"
+             "Definition bs (l : list N) : string := fold_right (fun b r => String (ascii_of_N b) r) EmptyString l.\n"
+             "Definition ostr_eqb (a b : option string) : bool := match a, b with Some x, Some y => String.eqb x y | None, None => true | _, _ => false end.\n"
+             "Fixpoint seq_opt {A} (l : list (option A)) : option (list A) := match l with [] => Some [] | None :: _ => None | Some x :: r => option_map (cons x) (seq_opt r) end.\n"
+             "Definition verify_paths (args : list tkind) (paths : list (list string)) : option pverdict :=\n"
+             "  match seq_opt (map (annotated_type E0) paths) with Some ps => Some (verify_params E0 args ps) | None => None end.\n"
+             "Definition pv_code (v : option pverdict) : list nat := match v with None => [9] | Some PTooMany => [1] | Some POk => [0] | Some (PIncompatible l) => 2 :: l end.\n"
+             "Definition ln_eqb (a b : list nat) : bool := if list_eq_dec Nat.eq_dec a b then true else false.\n")
+
+
+def coq_bytes(s):
+    return "(bs %s)" % C.coq_list([str(b) for b in s.encode("utf-8")])
+
+
+def names_leg(ctx, vh, rng):
+    """handler name -> signal name (qtname.rs callback_to_signal_name), on strings of every shape: vs model/Callback.v (K) and vs the rule stated in Python (S)"""
+    names = ["", "o", "on", "onX", "onx", "on_", "on1", "onClicked", "onclicked", "OnClicked", "oNClicked", "ONClicked", "on\u00c9cole", "onZ", "onA", "on@", "on[", "onA\u00e9", "onCurrentIndexChanged",
+             "xonClicked", "on Clicked", "ononClicked", "onOn", "on\u00e9", "onAZ", "onZz", "on`", "on{", "onM_1", "n", "no", "onn", "onN"]
+    alpha = "aAzZmM@[`{_09 \u00e9\u03a9\u00c9"
+    for _ in range(1500 if ctx.tier == "thorough" else 250):
+        names.append(rng.choice(["on", "on", "on", "On", "oN", "no", "o", "", "onn", "ON"]) + (rng.choice("ABMXYZ") if rng.random() < 0.4 else "") + "".join(rng.choice(alpha) for _ in range(rng.randrange(0, 6))))
+    names = list(dict.fromkeys(names))
+    res = C.harness_run(vh, "qtname", [{"fn": "callback_to_signal_name", "arg": n} for n in names])
+    terms = []
+    for n, r in zip(names, res):
+        ctx.count(("handler-name", n), n.startswith("on") and len(n) > 2)
+        ctx.dist("handler-name-%s" % ("on+capital" if n.startswith("on") and n[2:3].isascii() and n[2:3].isupper() else "other"))
+        if not isinstance(r, dict) or "out" not in r:
+            ctx.violation("callback_to_signal_name(%r) gives no result: %s" % (n, str(r)[:200]), {"name": n, "impl_output": str(r)[:300]})
+            continue
+        want = (n[2].lower() + n[3:]) if (n.startswith("on") and len(n) > 2 and "A" <= n[2] <= "Z") else None
+        if r["out"] != want:
+            ctx.violation("the handler name %r denotes the signal %r; it has to be %r (on + capital letter + rest, the letter lowered, nothing else changed)" % (n, r["out"], want),
+                          {"name": n, "impl_output": r["out"], "oracle_output": want, "theorem_or_correspondence": "C13_handler_name_denotes_one_signal / S"})
+            continue
+        terms.append((coq_bytes(n), "None" if r["out"] is None else "(Some %s)" % coq_bytes(r["out"])))
+    ctx.coverage["handler_names"] = len(names)
+    if ctx.model_ok and terms:
+        bad = C.coq_eval_mismatches("c13_names", CB_HEADER, terms, "ostr_eqb", "callback_to_signal_name", "string * option string", shard_size=400, scope="N_scope")
+        if bad and not ctx.violations:
+            ctx.broke("K", "qtname.rs callback_to_signal_name vs model/Callback.v", "model and implementation differ on %d names; first: %r" % (len(bad), names[bad[0]]))
+
+
+# (metatype spelling of a signal argument, the annotation that names the same type in a handler)
+PTYPES = [("int", ["int"]), ("uint", ["uint"]), ("bool", ["bool"]), ("double", ["double"]), ("QString", ["QString"]), ("VObj*", ["VObj"]), ("VSub*", ["VSub"]), ("VOther*", ["VOther"]),
+          ("VObj::Mode", ["VObj", "Mode"]), ("VObj::Opt", ["VObj", "Opt"]), ("VObj::Opts", ["VObj", "Opts"]), ("VOther::Mode", ["VOther", "Mode"]), ("VGadget", ["VGadget"]), ("QVariant", ["QVariant"]),
+          ("qreal", ["qreal"])]
+
+
+def py_assignable(param, arg):
+    """the k-th signal argument (arg) can initialise the k-th parameter (param): same type, a flag type and its enum, a pointer to a derived class"""
+    norm = {"qreal": "double"}
+    param, arg = norm.get(param, param), norm.get(arg, arg)
+    if param == arg:
+        return True
+    if {param, arg} == {"VObj::Opt", "VObj::Opts"}:
+        return True
+    return (param, arg) == ("VObj*", "VSub*")
+
+
+def params_leg(ctx, vh, rng):
+    """declared handler parameters against the signal's arguments (uigen/objcode.rs verify_callback_parameter_type): vs model/Callback.v (K) and vs the rule in Python (S)"""
+    nsig = 300 if ctx.tier == "thorough" else 60
+    sigs = [[rng.choice(PTYPES) for _ in range(rng.choice([0, 1, 1, 2, 2, 3]))] for _ in range(nsig)]
+    sigs[0], sigs[1], sigs[2] = [PTYPES[5]], [PTYPES[6]], [PTYPES[10], PTYPES[9]]
+    classes = [{"className": "PvObj", "qualifiedClassName": "PvObj", "object": True, "superClasses": [{"name": "VObj", "access": "public"}], "slots": [], "methods": [],
+                "signals": [{"name": "p%d" % j, "access": "public", "returnType": "void", "arguments": [{"type": t} for t, _ in sg]} for j, sg in enumerate(sigs)]}]
+    path = os.path.join(C.BUILD, "c13_params_metatypes.json")
+    with open(path, "w") as f:
+        json.dump([{"classes": classes, "inputFile": "pv.h", "outputRevision": 68}], f)
+    cases = []
+    for j, sg in enumerate(sigs):
+        for _ in range(6 if ctx.tier == "thorough" else 4):
+            ps = [t for t in sg]
+            r = rng.random()
+            if r < 0.25 and ps:
+                ps = ps[:rng.randrange(0, len(ps) + 1)]
+            elif r < 0.4:
+                ps = ps + [rng.choice(PTYPES) for _ in range(rng.choice([1, 2]))]
+            if ps and rng.random() < 0.7:
+                for _ in range(rng.choice([1, 1, 2])):
+                    k = rng.randrange(len(ps))
+                    ps[k] = rng.choice(PTYPES)
+            cases.append((j, sg, ps))
+    cases += [(0, sigs[0], [PTYPES[6]]), (0, sigs[0], [PTYPES[5]]), (1, sigs[1], [PTYPES[5]]), (1, sigs[1], [PTYPES[7]]), (2, sigs[2], [PTYPES[9], PTYPES[10]]), (2, sigs[2], [PTYPES[8]])]
+    docs = []
+    for j, sg, ps in cases:
+        params = ", ".join("q%d: %s" % (k, ".".join(a)) for k, (t, a) in enumerate(ps))
+        docs.append("import qmluic.QtWidgets\nVObj {\n    id: root\n    PvObj {\n        id: pv\n        onP%d: function(%s) { root.act(1) }\n    }\n}\n" % (j, params))
+    old = os.environ.get("VERIF_EXTRA_METATYPES", "")
+    os.environ["VERIF_EXTRA_METATYPES"] = cxx.write_e0w() + ":" + path
+    res = qml.run_docs(vh, docs)
+    os.environ["VERIF_EXTRA_METATYPES"] = old
+    terms = []
+    for (j, sg, ps), d, r in zip(cases, docs, res):
+        ctx.count(("handler-params", tuple(t for t, _ in sg), tuple(t for t, _ in ps)), len(ps) > 0)
+        rep = {"signal_arguments": [t for t, _ in sg], "declared_parameters": [".".join(a) for _, a in ps], "qml": d}
+        if not isinstance(r, dict) or "diags" not in r:
+            ctx.violation("a handler with declared parameters: no result (%s)" % str(r)[:200], rep)
+            continue
+        errs = [x for x in r["diags"] if x["kind"] == "error"]
+        msgs = [x["msg"] for x in errs]
+        if any("too many callback arguments" in m for m in msgs):
+            got = [1]
+        elif any("incompatible callback arguments" in m for m in msgs):
+            starts = [d.index("q%d:" % k) for k in range(len(ps))]
+            got = [2] + sorted(starts.index(x["start"]) if x["start"] in starts else 99 for x in errs if "incompatible callback arguments" in x["msg"])
+        elif not msgs:
+            got = [0]
+        else:
+            ctx.dist("handler-params-other-diagnostic")
+            ctx.coverage.setdefault("params_other_diagnostics", [])
+            if len(ctx.coverage["params_other_diagnostics"]) < 4:
+                ctx.coverage["params_other_diagnostics"].append(msgs[0])
+            continue
+        ctx.dist("handler-params-%s" % {0: "accepted", 1: "too-many", 2: "incompatible"}[got[0]])
+        # S, without the model
+        want = [1] if len(ps) > len(sg) else ([0] if all(py_assignable(p[0], a[0]) for p, a in zip(ps, sg)) else [2] + [k for k, (p, a) in enumerate(zip(ps, sg)) if not py_assignable(p[0], a[0])])
+        if got != want:
+            ctx.violation("a handler declaring (%s) on a signal carrying (%s) is %s; by the rule (no more parameters than arguments, the k-th argument assignable to the k-th parameter) it is %s"
+                          % (", ".join(rep["declared_parameters"]), ", ".join(rep["signal_arguments"]), describe_pv(got), describe_pv(want)),
+                          dict(rep, impl_output=msgs, oracle_output=describe_pv(want), theorem_or_correspondence="C13_parameters_accepted_iff_leading_arguments_fit / S"))
+            continue
+        args = C.coq_list([e0.coq_type(e0.parse_type(t, "VObj")) for t, _ in sg])
+        paths = C.coq_list([C.coq_list(['"%s"%%string' % x for x in a]) for _, a in ps])
+        terms.append(("(%s, %s)" % (args, paths), C.coq_list([str(x) for x in got])))
+    ctx.coverage["handler_parameter_lists"] = len(cases)
+    if ctx.model_ok and terms:
+        bad = C.coq_eval_mismatches("c13_params", CB_HEADER, terms, "ln_eqb", "(fun c => pv_code (verify_paths (fst c) (snd c)))", "(list tkind * list (list string)) * list nat", shard_size=200, scope="nat_scope")
+        if bad and not ctx.violations:
+            ctx.broke("K", "uigen/objcode.rs verify_callback_parameter_type vs model/Callback.v", "model and implementation differ on %d parameter lists; first: %s expected %s" % (len(bad), terms[bad[0]][0], terms[bad[0]][1]))
+
+
+def describe_pv(v):
+    return {0: "accepted", 1: "refused (too many parameters)"}.get(v[0], "refused (parameters %s do not fit)" % v[1:])
+
+
 def run(ctx):
-    ctx.proof_leg(TARGETS, PINS, k_targets=exe.K_TARGETS + ["model/Overload.vo"])
+    ctx.proof_leg(TARGETS, PINS, k_targets=exe.K_TARGETS + ["model/Overload.vo", "model/Callback.vo"])
     vh = ctx.need_harness()
     rng = ctx.rng
     os.environ["VERIF_EXTRA_METATYPES"] = cxx.write_e0w()
@@ -194,6 +331,8 @@ def run(ctx):
     ctx.coverage["handlers_generated"] = len(items)
     ctx.coverage["handlers_accepted"] = len(acc)
     overload_leg(ctx, vh, rng)
+    names_leg(ctx, vh, rng)
+    params_leg(ctx, vh, rng)
     os.environ["VERIF_EXTRA_METATYPES"] = cxx.write_e0w()
     # ---- rejections the property names
     rej = [("onChanged", "a.act(1)", "cannot bind to overloaded signal"), ("onAct", "a.act(1)", "not a signal"), ("onCompute", "a.act(1)", "not a signal"),
